@@ -261,6 +261,12 @@ def check(ctx):
         ctx.check(not runs, "C18.c", "abort-helper:runs-no-system", "%s:%d" % (H.file, H.line), "", "the abort path runs a stored callback")
     except mir.AnchorLost as e:
         ctx.fail("C18.c", "anchor-lost:abort helper", "", str(e))
+    # ---- C18.e a trigger for a dead target dispatches nothing (shared with C14.d) and a run whose system despawned
+    #      itself still replays / aborts what was postponed for it (shared with C02.c) ----
+    import c14
+    n = core.adopt(ctx, c14, lambda o: o["rule"] == "C14.d", "C18.e")
+    n += core.adopt(ctx, c02, lambda o: o["rule"] == "C02.c" and any(k in o["key"] for k in ("run-path-always-replays", "counter-increment-always-reaches-root-test", "discard", "root-resets-counter")), "C18.e")
+    ctx.floor("C18.e", n, 6, "shared void-trigger and run-path obligations (C14.d, C02.c)")
     # ---- C18.d other registrations untouched ----
     n = core.adopt(ctx, c06, lambda o: o["rule"] == "C06.b", "C18.d")
     ctx.floor("C18.d", n, 25, "shared revoke-exactness obligations")
